@@ -414,4 +414,101 @@ theorem adjacency_ids (recs : List (String × String × Rat)) :
     (∀ s, s ∈ (adjTable recs).samp ↔ s ∈ recs.map (·.2.1)) :=
   ⟨sortDedup_sorted _, sortDedup_sorted _, mem_sortDedup _, mem_sortDedup _⟩
 
+/-! ### uc cluster files -/
+
+/-- a coordinate dictionary with distinct in-range keys, with any distinct IDs (possibly none on an
+axis): the constructor produces the table whose cells are the stored values -/
+theorem construct_dict (d : Dict) (obs samp : List Id) (hno : obs.Nodup) (hns : samp.Nodup)
+    (hk : (d.map (·.1)).Nodup) (hr : ∀ e ∈ d, e.1.1 < obs.length ∧ e.1.2 < samp.length) :
+    construct { data := .dict d, obs := obs, samp := samp } =
+      .ok { obs := obs, samp := samp,
+            rows := tabulate obs.length samp.length (fun i j => (d.lookup (i, j)).getD 0) } := by
+  have hrange : inRange obs.length samp.length (dictTriples d) = true := (inRange_dictTriples _ _ d).mpr hr
+  have hgrid : tabulate obs.length samp.length (cellSum (dictTriples d)) =
+      tabulate obs.length samp.length (fun i j => (d.lookup (i, j)).getD 0) := by
+    apply tabulate_eq _ _ _ _ (gridIs_tabulate _ _ _)
+    intro i j hi hj
+    rw [cellD_tabulate _ _ _ _ _ hi hj, cellSum_dictTriples d hk]
+  have hts : toSparse (.dict d) false (obs.length, samp.length) =
+      .ok ⟨obs.length, samp.length, tabulate obs.length samp.length (fun i j => (d.lookup (i, j)).getD 0)⟩ := by
+    simp only [toSparse, dictToSparse, cooArraysToSparse, cooDense, hrange, if_true, hgrid]
+  simp only [construct, constructWith, hts, bind, Except.bind]
+  by_cases hempty : obs = [] ∨ samp = []
+  · exact finish_empty _ obs samp hempty
+  · have ho : obs ≠ [] := fun e => hempty (Or.inl e)
+    have hs : samp ≠ [] := fun e => hempty (Or.inr e)
+    exact finish_accept _ obs samp none none ho hs hno hns rfl rfl rfl rfl
+
+/-- the table `parse_uc` hands to the constructor -/
+def ucTable (st : UcState) : Table Rat :=
+  { obs := st.obsIds, samp := st.sampIds,
+    rows := tabulate st.obsIds.length st.sampIds.length (fun i j => (st.data.lookup (i, j)).getD 0) }
+
+/-- **uc_cell.** For every uc document whose H/S query labels all contain an underscore, `parse_uc`
+produces a table whose observation IDs are the distinct seed labels, whose sample IDs are the
+distinct texts before the last underscore of the H/S query labels, and whose cell (seed, sample)
+is the number of H/S records of that seed and sample. -/
+theorem uc_cell (lines : List (List String)) (recs : List UcRec)
+    (hrec : ucRecords lines = .ok recs)
+    (hq : ∀ r ∈ recs, isHS r = true → (sampleOf r.query).isSome = true) :
+    ∃ t, parseUc lines = .ok t ∧ t.obs.Nodup ∧ t.samp.Nodup ∧
+      (∀ o, o ∈ t.obs ↔ ∃ r ∈ recs, r.seed = o) ∧
+      (∀ s, s ∈ t.samp ↔ ∃ r ∈ recs, isHS r = true ∧ sampleOf r.query = some s) ∧
+      ∀ o ∈ t.obs, ∀ s ∈ t.samp, t.cell? o s = some ((ucCnt recs o s : Nat) : Rat) := by
+  obtain ⟨st, hfold, inv⟩ := ucFold_inv recs {} [] ucInv_init hq
+  simp only [List.nil_append] at inv
+  have hcon := construct_dict st.data st.obsIds st.sampIds inv.nodupO inv.nodupS inv.keys inv.range
+  refine ⟨ucTable st, ?_, inv.nodupO, inv.nodupS, inv.seeds, inv.samples, ?_⟩
+  · simp only [parseUc, hrec, hfold, bind, Except.bind, hcon, ucTable]
+  · intro o ho s hs
+    have ho : o ∈ st.obsIds := ho
+    have hs : s ∈ st.sampIds := hs
+    have hi := List.idxOf_lt_length_iff.mpr ho
+    have hj := List.idxOf_lt_length_iff.mpr hs
+    have hcell := cell_of_grid (ucTable st)
+      _ _ _ (gridIs_tabulate _ _ _) rfl inv.nodupO inv.nodupS rfl rfl _ _ hi hj
+    simp only [ucTable] at hcell ⊢
+    rw [getD_idxOf _ o ho, getD_idxOf _ s hs] at hcell
+    rw [hcell, cellD_tabulate _ _ _ _ _ hi hj]
+    exact congrArg some (inv.count o ho s hs)
+
+/-- the sample of a query label `s_x` is `s`: everything before the LAST underscore -/
+theorem sampleOf_spec (s x : String) (h : '_' ∉ x.toList) :
+    sampleOf (String.ofList (s.toList ++ '_' :: x.toList)) = some s := by
+  simp only [sampleOf, String.toList_ofList, beforeLast_spec s.toList x.toList h, Option.map_some,
+    String.ofList_toList]
+
+/-- a label without any underscore has no sample (the importer refuses the file) -/
+theorem sampleOf_none (q : String) (h : '_' ∉ q.toList) : sampleOf q = none := by
+  simp only [sampleOf, (beforeLast_none q.toList).mpr h, Option.map_none]
+
+/-- `from-uc` with a fasta map: the table of `parse_uc` with every seed label replaced by the label
+the map gives it (a later fasta line wins); cells, samples and order are untouched -/
+theorem fromUc_renames (lines : List (List String)) (fasta : List String) (t t' : Table Rat)
+    (ht : parseUc lines = .ok t) (ht' : fromUc lines (some fasta) = .ok t') :
+    ∃ m, fastaMap fasta = .ok m ∧ t.obs.mapM (mapGet m) = some t'.obs ∧ t'.obs.Nodup ∧
+      t'.samp = t.samp ∧ t'.rows = t.rows := by
+  simp only [fromUc, ht, bind, Except.bind] at ht'
+  cases hm : fastaMap fasta with
+  | error e => simp [hm] at ht'
+  | ok m =>
+    simp only [hm, renameObs] at ht'
+    refine ⟨m, rfl, ?_⟩
+    split at ht'
+    · cases ht'
+    · cases hids : t.obs.mapM (mapGet m) with
+      | none => simp [hids] at ht'
+      | some ids =>
+        simp only [hids] at ht'
+        split at ht'
+        · cases ht'
+        · rename_i hd
+          cases ht'
+          refine ⟨rfl, ?_, rfl, rfl⟩
+          simp only []
+          by_cases hn : ids.Nodup
+          · exact hn
+          · have := dedup_length_lt ids hn
+            exact absurd (by omega) hd
+
 end Biom.C17
